@@ -20,6 +20,9 @@ import hexital.indicators as I  # noqa: E402
 assert str(core.REPO) in hexital.__file__, f"hexital imported from {hexital.__file__}, expected {core.REPO}"
 
 
+CASE_SECONDS = 10.0
+
+
 def mk_candle(row: Dict) -> Candle:
     return Candle(row["open"], row["high"], row["low"], row["close"], row["volume"],
                   timestamp=to_dt(row["ts"]) if row.get("ts") is not None else None)
@@ -58,20 +61,22 @@ def run_manager(cfg: Dict, init: List[Dict], ops: List[Tuple]) -> Tuple[List[Lis
     """States after construction and after each op; stops at the first exception."""
     states: List[List[Dict]] = []
     try:
-        m = manager(cfg, init)
+        with core.time_limit(CASE_SECONDS):
+            m = manager(cfg, init)
     except Exception as e:  # noqa
         return states, type(e).__name__
     states.append(snap_list(m.candles))
     for op in ops:
         try:
-            if op[0] == "append":
-                m.append(mk_candles(op[1]))
-            elif op[0] == "collapse":
-                m.collapse_candles()
-            elif op[0] == "tasks":
-                m._tasks()
-            else:
-                raise ValueError(op)
+            with core.time_limit(CASE_SECONDS):
+                if op[0] == "append":
+                    m.append(mk_candles(op[1]))
+                elif op[0] == "collapse":
+                    m.collapse_candles()
+                elif op[0] == "tasks":
+                    m._tasks()
+                else:
+                    raise ValueError(op)
         except Exception as e:  # noqa
             return states, type(e).__name__
         states.append(snap_list(m.candles))
